@@ -1,15 +1,22 @@
 pub mod common;
 pub mod c01;
+pub mod c02;
+pub mod wf;
 pub mod c03;
 pub mod c04;
+pub mod c13;
+pub mod c14;
 
 use crate::prop::{Ctx, Prop};
 
 pub fn get(id: &str) -> Option<Box<dyn Prop>> {
     Some(match id {
         "C01" => Box::new(c01::C01),
+        "C02" => Box::new(c02::C02),
         "C03" => Box::new(c03::C03),
         "C04" => Box::new(c04::C04),
+        "C13" => Box::new(c13::C13),
+        "C14" => Box::new(c14::C14),
         _ => return None,
     })
 }
